@@ -230,6 +230,11 @@ def _scalar_of(r):
     return r, ()
 
 
+def _is_minus(z, x):
+    dz, dx = dense_of(z), dense_of(x)
+    return bool(dz.shape == dx.shape and np.array_equal(dz, -dx) and labels_of(z) == labels_of(x))
+
+
 def check_case(d):
     d = normalise(d)
     c = d["contract"]
@@ -293,7 +298,8 @@ def check_case(d):
                     continue
                 ok, why = arrays_equal(z, x, why=True)
                 if not ok:
-                    fails.append((c + ".conj_conj", f"conj(conj(x)) != x with phase_permutation={pp}, phase_dual={pd}: {why}", f2))
+                    f2["minus_x"] = _is_minus(z, x)
+                    fails.append((c + ".conj_conj", f"conj(conj(x)) != x with phase_permutation={pp}, phase_dual={pd}: {why}" + (" (result is exactly -x)" if f2["minus_x"] else ""), f2))
                 ok, why = is_valid(y)
                 if not ok:
                     fails.append((c + ".valid", f"conj(x) not Valid: {why}", f2))
@@ -306,7 +312,8 @@ def check_case(d):
                 continue
             ok, why = arrays_equal(z, x, why=True)
             if not ok:
-                fails.append((c + ".dagger_dagger", f"dagger(dagger(x)) != x with phase_dual={pd}: {why}", f2))
+                f2["minus_x"] = _is_minus(z, x)
+                fails.append((c + ".dagger_dagger", f"dagger(dagger(x)) != x with phase_dual={pd}: {why}" + (" (result is exactly -x)" if f2["minus_x"] else ""), f2))
         return {"fingerprint": fp, "nontrivial": nontrivial, "failures": fails[:6], "sample": {"sym": sym, "duals": duals, "charge": a["charge"]}}
 
     if c == "C10.dagger_conj":
